@@ -149,8 +149,13 @@ def cbmc_cmd(q, solver, uws):
     elif q.checks == 'basic': pass            # CBMC 6 defaults (bounds, pointer, div-by-zero ...)
     if q.unwind is not None: cmd += ['--unwind', str(q.unwind)]
     if uws: cmd += ['--unwindset', ','.join(uws)]
-    cmd += ['--unwinding-assertions', '--drop-unused-functions', '--trace', '--verbosity', '8']
-    if not getattr(q, 'noslice', False): cmd += ['--slice-formula']
+    if getattr(q, 'cover', False):
+        # reachability of the harness's COVER() goals: loops are cut at the same bounds (paths beyond them are not
+        # counted as reaching anything), assertions play no role
+        cmd += ['--cover', 'cover', '--drop-unused-functions', '--verbosity', '8']
+    else:
+        cmd += ['--unwinding-assertions', '--drop-unused-functions', '--trace', '--verbosity', '8']
+        if not getattr(q, 'noslice', False): cmd += ['--slice-formula']
     if q.object_bits: cmd += ['--object-bits', str(q.object_bits)]
     if solver == 'kissat': cmd += ['--external-sat-solver', 'kissat']
     elif solver == 'cadical': cmd += ['--sat-solver', 'cadical']
@@ -182,18 +187,50 @@ def parse_cbmc(out):
     props = re.findall(r'^\[([^\]]+)\] (.*): (SUCCESS|FAILURE|UNKNOWN)\s*$', out, re.M)
     r['n_props'] = len(props)
     r['failed'] = [(pid, desc.strip()) for pid, desc, st in props if st == 'FAILURE']
+    if not props:
+        # --stop-on-fail prints the first violated property instead of the result table
+        for m in re.finditer(r'^Violated property:\n\s*file \S+ function (\S+) line (\d+)[^\n]*\n\s*(.*)$', out, re.M):
+            fn, line, desc = m.group(1), m.group(2), m.group(3).strip()
+            mu = re.match(r'unwinding assertion loop (\d+)', desc)
+            r['failed'].append(('%s.unwind.%s' % (fn, mu.group(1)) if mu else '%s.assertion' % fn, 'line %s %s' % (line, desc)))
+    goals = re.findall(r'^\[([^\]]+)\] file \S+ line (\d+) function \S+ (.*): (SATISFIED|FAILED)\s*$', out, re.M)
+    if goals:
+        r['cover'] = [(int(line), desc.strip(), st) for _, line, desc, st in goals]
+        r['status'] = 'covered' if all(st == 'SATISFIED' for _, _, _, st in goals) else 'uncovered'
+        return r
     if 'VERIFICATION SUCCESSFUL' in out: r['status'] = 'holds'
     elif 'VERIFICATION FAILED' in out: r['status'] = 'fails'
     else: r['status'] = 'noverdict'
     return r
 
 def run_query(q, logdir):
+    """bounds are derived (props/fsmlib.bounds) and CHECKED: when an unwinding assertion fails, the bound of exactly that
+    loop is raised (to the default bound, then doubled) and the query is re-run, at most 3 times; the bounds finally
+    used are reported in the evidence.  A loop that still fails is a machinery fault (BROKEN), never a verdict."""
     os.makedirs(logdir, exist_ok=True)
     t0 = time.time()
     try:
         uws = resolve_unwindset(q)
     except Exception as e:
         return dict(name=q.name, status='error', error=repr(e), wall_s=0)
+    raised = []
+    for attempt in range(4):
+        r = _run_query_once(q, logdir, uws, t0)
+        uf = [pid for pid, d in r.get('failed', []) if 'unwinding assertion' in d] if r.get('status') == 'fails' else []
+        if not uf or attempt == 3: break
+        cur = {u.rsplit(':', 1)[0]: int(u.rsplit(':', 1)[1]) for u in uws}
+        for pid in uf:
+            m = re.match(r'(.*)\.unwind\.(\d+)$', pid)
+            if not m: continue
+            lid = '%s.%s' % (m.group(1), m.group(2))
+            old = cur.get(lid, q.unwind or 8)
+            new = (q.unwind or 8) if old < (q.unwind or 8) else old * 2
+            cur[lid] = new; raised.append('%s:%d->%d' % (lid, old, new))
+        uws = ['%s:%d' % kv for kv in cur.items()]
+    if raised: r['bounds_raised'] = raised
+    return r
+
+def _run_query_once(q, logdir, uws, t0):
     best = None
     procs = []
     lock = threading.Lock()
@@ -233,7 +270,7 @@ def run_query(q, logdir):
         elif r['status'] == 'noverdict' and rc not in (0, 10): r['status'] = 'error'; r['error'] = out[-1500:]
         with lock:
             results[solver] = r
-            if r['status'] in ('holds', 'fails'):
+            if r['status'] in ('holds', 'fails', 'covered', 'uncovered'):
                 results['_done'] = True
                 for pp in procs:
                     if pp is not p and pp.poll() is None:
@@ -246,7 +283,7 @@ def run_query(q, logdir):
         for t in ths: t.join()
     for s in q.solvers:
         r = results.get(s)
-        if r and r['status'] in ('holds', 'fails'): best = r; break
+        if r and r['status'] in ('holds', 'fails', 'covered', 'uncovered'): best = r; break
     if best is None:
         best = results.get(q.solvers[0]) or dict(status='error')
     best = dict(best); best['name'] = q.name; best['unwindset'] = uws; best['cmd'] = ' '.join(cbmc_cmd(q, best.get('solver', q.solvers[0]), uws))
@@ -363,7 +400,8 @@ def load_known():
 
 def write_evidence(pid, tier, seed, results, wall_s, violations, assumptions, extra=None, level='model_checking'):
     os.makedirs(os.path.join(VERIF, 'evidence'), exist_ok=True)
-    main = [r for r in results if r.get('expect') != 'fails-witness']
+    cover = [r for r in results if r.get('expect') == 'covered']
+    main = [r for r in results if r.get('expect') not in ('fails-witness', 'covered')]
     wit = [r for r in results if r.get('expect') == 'fails-witness']
     decided = [r for r in results if r.get('status') in ('holds', 'fails')]
     wit_ok = {r.get('witness_of') for r in wit if r.get('status') == 'fails'}
@@ -378,6 +416,8 @@ def write_evidence(pid, tier, seed, results, wall_s, violations, assumptions, ex
         s = {k: r.get(k) for k in ('name', 'status', 'solver', 'steps', 'vccs', 'vccs_remaining', 'variables', 'clauses', 'symex_s', 'solver_s', 'decision_s', 'wall_s', 'rss_mb', 'unwindset', 'expect') if r.get(k) is not None}
         s.update(r.get('meta') or {})
         if r.get('failed'): s['failed'] = [d for _, d in r['failed']][:6]
+        if r.get('cover'): s['cover_goals'] = ['%s: %s' % (g, d[:160]) for _, d, g in r['cover']][:12]
+        if r.get('bounds_raised'): s['bounds_raised'] = r['bounds_raised'][:8]
         samples.append(s)
     decided_main = [r for r in main if r.get('status') in ('holds', 'fails')]
     tv = (extra or {}).get('translation_validation', {})
@@ -387,6 +427,7 @@ def write_evidence(pid, tier, seed, results, wall_s, violations, assumptions, ex
                traces_validated_against_impl=int(tv.get('paired_runs', 0)) + len([r for r in results if r.get('replay')]),
                obligations=len(main), discharged=len([r for r in main if r.get('status') in ('holds', 'fails')]),
                witnesses=len(wit), witnesses_reached=len([r for r in wit if r.get('status') == 'fails']),
+               coverage_goal_queries=len(cover), coverage_goals=sum(len(r.get('cover') or []) for r in cover), coverage_goals_reached=sum(len([1 for _, _, g in (r.get('cover') or []) if g == 'SATISFIED']) for r in cover),
                solver_s=round(sum((r.get('solver_s') or 0) + (r.get('decision_s') or 0) for r in results), 2),
                symex_s=round(sum(r.get('symex_s') or 0 for r in results), 2),
                samples=samples, exhaustive=False,
